@@ -503,6 +503,12 @@ class RemoteWorker(Worker, metaclass=RemoteWorkerMeta):
 
             incoming = self._ctrl_sock
             logger.debug('Waiting for a connect to the control socket from the parent')
+            # the parent does not send anything over the data socket at this point - if it becomes
+            # readable before anyone connects to the control socket, the parent has gone away
+            ready = mp.connection.wait([incoming, self._socket])
+            if incoming not in ready:
+                incoming.close()
+                raise ConnectionClosedError()
             self._ctrl_sock, ctrl_peer = incoming.accept()
             set_keepalive(self._ctrl_sock, True)
             logger.details('Control sockets connected: {} <==> {}', self._ctrl_sock.getsockname(), ctrl_peer)
